@@ -11,7 +11,6 @@ package sim
 import (
 	"errors"
 	"fmt"
-	"sort"
 	"strings"
 	"sync"
 
@@ -68,18 +67,18 @@ type Store struct {
 	Name     string
 	W        *World
 	mu       sync.Mutex
-	m        map[string][]byte
+	m        *kvmap
 	Faults   []*Fault
 	Sched    *Sched
 	Monitor  func(key string, old []byte, had bool, val []byte) string // returns "" or a violation text
 	MonErrs  []string
 	NoPark   bool // serve without parking even when Sched is set
-	OpCounts map[string]int
+	opCounts [8]int
 	Closed   int
 }
 
 func NewStore(name string, w *World) *Store {
-	return &Store{Name: name, W: w, m: map[string][]byte{}, OpCounts: map[string]int{}}
+	return &Store{Name: name, W: w, m: newKVMap()}
 }
 
 func isWrite(op string) bool { return op == "set" || op == "del" || op == "clear" }
@@ -89,7 +88,7 @@ func (s *Store) matchFault(op, key string) bool {
 	hit := false
 	for _, f := range s.Faults {
 		ok := f.Op == op || f.Op == "any" || (f.Op == "write" && isWrite(op)) || (f.Op == "read" && !isWrite(op))
-		if !ok || !strings.HasPrefix(key, f.Prefix) {
+		if !ok || !hasPrefix(key, f.Prefix) {
 			continue
 		}
 		f.seen++
@@ -111,7 +110,7 @@ func (s *Store) enter(op string, key []byte) (fail bool) {
 		s.Sched.park(op, k)
 	}
 	s.mu.Lock()
-	s.OpCounts[op]++
+	s.opCounts[opCode(op)]++
 	fail = s.matchFault(op, k)
 	s.mu.Unlock()
 	s.W.mu.Lock()
@@ -138,7 +137,7 @@ func (s *Store) Get(key []byte) ([]byte, error) {
 	}
 	raceDisable()
 	s.mu.Lock()
-	v, ok := s.m[string(key)]
+	v, ok := s.m.get(string(key))
 	var c []byte
 	if ok {
 		c = cp(v)
@@ -160,10 +159,12 @@ func (s *Store) Set(key, val []byte) error {
 	k := string(key)
 	v := cp(val)
 	s.mu.Lock()
-	old, had := s.m[k]
-	s.m[k] = v
+	old, had := s.m.get(k)
+	s.m.set(k, v)
 	s.mu.Unlock()
 	if s.Monitor != nil {
+		// The monitor runs instrumented code (wrgl decoders, fmt); it is only
+		// installed in non-race profiles.
 		if e := s.Monitor(k, old, had, v); e != "" {
 			s.mu.Lock()
 			s.MonErrs = append(s.MonErrs, e)
@@ -183,7 +184,7 @@ func (s *Store) Delete(key []byte) error {
 	raceDisable()
 	k := string(key)
 	s.mu.Lock()
-	delete(s.m, k)
+	s.m.del(k)
 	s.mu.Unlock()
 	s.W.appendLog(WriteRec{Store: s.Name, Op: "del", Key: k})
 	raceEnable()
@@ -197,7 +198,7 @@ func (s *Store) Exist(key []byte) bool {
 	}
 	raceDisable()
 	s.mu.Lock()
-	_, ok := s.m[string(key)]
+	_, ok := s.m.get(string(key))
 	s.mu.Unlock()
 	raceEnable()
 	return ok
@@ -209,15 +210,14 @@ func (s *Store) Filter(prefix []byte) (map[string][]byte, error) {
 		return nil, ErrInjected
 	}
 	raceDisable()
-	res := map[string][]byte{}
 	s.mu.Lock()
-	for k, v := range s.m {
-		if strings.HasPrefix(k, string(prefix)) {
-			res[k] = cp(v)
-		}
-	}
+	ks, vs := s.m.scan(string(prefix))
 	s.mu.Unlock()
 	raceEnable()
+	res := make(map[string][]byte, len(ks)) // caller-local map
+	for i, k := range ks {
+		res[k] = cp(vs[i])
+	}
 	return res, nil
 }
 
@@ -227,20 +227,14 @@ func (s *Store) FilterKey(prefix []byte) ([][]byte, error) {
 		return nil, ErrInjected
 	}
 	raceDisable()
-	var ks []string
 	s.mu.Lock()
-	for k := range s.m {
-		if strings.HasPrefix(k, string(prefix)) {
-			ks = append(ks, k)
-		}
-	}
+	ks, _ := s.m.scan(string(prefix)) // sorted: Badger iterates in key order
 	s.mu.Unlock()
-	sort.Strings(ks) // Badger iterates in key order
+	raceEnable()
 	res := make([][]byte, len(ks))
 	for i, k := range ks {
 		res[i] = []byte(k)
 	}
-	raceEnable()
 	return res, nil
 }
 
@@ -251,10 +245,9 @@ func (s *Store) Clear(prefix []byte) error {
 	}
 	raceDisable()
 	s.mu.Lock()
-	for k := range s.m {
-		if strings.HasPrefix(k, string(prefix)) {
-			delete(s.m, k)
-		}
+	ks, _ := s.m.scan(string(prefix))
+	for _, k := range ks {
+		s.m.del(k)
 	}
 	s.mu.Unlock()
 	s.W.appendLog(WriteRec{Store: s.Name, Op: "clear", Key: string(prefix)})
@@ -280,9 +273,10 @@ func (s *Store) Snapshot() map[string][]byte {
 	defer raceEnable()
 	s.mu.Lock()
 	defer s.mu.Unlock()
-	m := make(map[string][]byte, len(s.m))
-	for k, v := range s.m {
-		m[k] = v // values are never mutated in place
+	ks, vs := s.m.scan("")
+	m := make(map[string][]byte, len(ks))
+	for i, k := range ks {
+		m[k] = vs[i] // values are never mutated in place
 	}
 	return m
 }
@@ -293,9 +287,9 @@ func (s *Store) Restore(m map[string][]byte) {
 	defer raceEnable()
 	s.mu.Lock()
 	defer s.mu.Unlock()
-	s.m = make(map[string][]byte, len(m))
+	s.m = newKVMap()
 	for k, v := range m {
-		s.m[k] = v
+		s.m.set(k, v)
 	}
 }
 
@@ -305,8 +299,7 @@ func (s *Store) Raw(key string) ([]byte, bool) {
 	defer raceEnable()
 	s.mu.Lock()
 	defer s.mu.Unlock()
-	v, ok := s.m[key]
-	return v, ok
+	return s.m.get(key)
 }
 
 //go:norace
@@ -315,7 +308,7 @@ func (s *Store) RawSet(key string, v []byte) {
 	defer raceEnable()
 	s.mu.Lock()
 	defer s.mu.Unlock()
-	s.m[key] = cp(v)
+	s.m.set(key, cp(v))
 }
 
 //go:norace
@@ -324,7 +317,7 @@ func (s *Store) RawDelete(key string) {
 	defer raceEnable()
 	s.mu.Lock()
 	defer s.mu.Unlock()
-	delete(s.m, key)
+	s.m.del(key)
 }
 
 //go:norace
@@ -333,13 +326,7 @@ func (s *Store) Keys(prefix string) []string {
 	defer raceEnable()
 	s.mu.Lock()
 	defer s.mu.Unlock()
-	var ks []string
-	for k := range s.m {
-		if strings.HasPrefix(k, prefix) {
-			ks = append(ks, k)
-		}
-	}
-	sort.Strings(ks)
+	ks, _ := s.m.scan(prefix)
 	return ks
 }
 
